@@ -235,6 +235,18 @@ fn check(v: &Value) -> Vec<String> {
                         }
                         exts.push((0x6803_f857, d));
                     }
+                    "featmax" => {
+                        let mut d = vec![0u8; 96];
+                        d[0] = 1;
+                        d[1] = 3;
+                        for b in d[2..48].iter_mut() {
+                            *b = b'x';
+                        }
+                        d[48] = 2;
+                        d[49] = 7;
+                        d[50..55].copy_from_slice(b"short");
+                        exts.push((0x6803_f857, d));
+                    }
                     "unk0" => exts.push((0x1111_2222, vec![])),
                     "unk5" => exts.push((0x1111_2223, vec![1, 2, 3, 4, 5])),
                     "unk8" => exts.push((0x1111_2224, vec![9; 8])),
